@@ -186,7 +186,15 @@ def run(desc, M):
                                                  **({"state_names": {nm[virt]: sn}} if sn else {}))]
         if virt2:
             sn2 = C.state_names(desc.get("states", "default"), virt2, desc["card"][virt2])
-            kw["virtual_evidence"].append(TabularCPD(nm[virt2], desc["card"][virt2], [[M.impl(x)] for x in lam2],
+            lam2_listed = list(lam2)
+            if virt2 == virt:
+                # the second entry for the same variable lists the states in a ROTATED order (a permutation that is not its own inverse for
+                # three states): likelihoods are matched by state name, not by position
+                k2 = desc["card"][virt2]
+                rot = list(range(k2))[1:] + [0]
+                sn2 = [(sn2 if sn2 else list(range(k2)))[i] for i in rot]
+                lam2_listed = [lam2[i] for i in rot]
+            kw["virtual_evidence"].append(TabularCPD(nm[virt2], desc["card"][virt2], [[M.impl(x)] for x in lam2_listed],
                                                      **({"state_names": {nm[virt2]: sn2}} if sn2 else {})))
     qvars = [nm[v] for v in desc["q"]]
     if desc.get("prune", True) or virt or order == "greedy":
